@@ -15,6 +15,8 @@ CONSTANTS
     ForkKinds,    \* kinds explored for the blocks of the other branch
     ResetDepths,  \* rollback depths
     ForkLens,     \* number of blocks of the other branch inserted by the fork switch
+    FsKinds,      \* fast sync: kinds explored for the blocks between the node's head and the snapshot height
+    FsLens,       \* fast sync: number of such blocks
     PreHeads,     \* head heights of the pre-state (<= Retain - 1: no pruning yet; > Retain: every commit prunes)
     ExportOn
 
@@ -41,7 +43,9 @@ ForkAt(s) == CASE s.op = "Fork" -> s.h0 - s.k
                [] s.op = "Alt"  -> s.h0
                [] OTHER         -> 0            \* no other branch
 
-AKind(s, h) == IF s.op \in {"Add", "Alt"} /\ h = s.h0 + 1 THEN s.kinds[1] ELSE "plain"
+AKind(s, h) == IF s.op \in {"Add", "Alt"} /\ h = s.h0 + 1 THEN s.kinds[1]
+               ELSE IF s.op = "FastSync" /\ h > s.h0 /\ h <= s.h0 + Len(s.kinds) THEN s.kinds[h - s.h0]
+               ELSE "plain"
 BKind(s, h) == IF s.op = "Fork" /\ h - ForkAt(s) <= Len(s.kinds) THEN s.kinds[h - ForkAt(s)]
                ELSE IF s.op = "Alt" /\ h = ForkAt(s) + 1 THEN "tx"      \* the sibling differs in content, not only in its hash
                ELSE "plain"
@@ -66,8 +70,10 @@ End(s) == CASE s.op = "Add"   -> s.h0 + 2
             [] s.op = "Reset" -> s.h0 + 1
             [] s.op = "Fork"  -> ForkAt(s) + Len(s.kinds) + 1
             [] s.op = "Alt"   -> s.h0 + 2
+            [] s.op = "FastSync" -> s.h0 + Len(s.kinds) + 2
+SnapH(s) == s.h0 + Len(s.kinds)          \* fast sync: height of the snapshot
 OldTip(s) == IF s.op \in {"Add", "Alt"} THEN s.h0 + 1 ELSE s.h0
-KnownIds(s) == {ABlock(s, h).id : h \in 1..(s.h0 + 2)} \cup {BBlock(s, h).id : h \in 1..End(s)}
+KnownIds(s) == {ABlock(s, h).id : h \in 1..(s.h0 + 2)} \cup {Target(s, h).id : h \in 1..End(s)}
 
 RECURSIVE SeqsOver(_, _)
 SeqsOver(S, len) == IF len = 0 THEN {<<>>} ELSE {<<x>> \o t : x \in S, t \in SeqsOver(S, len - 1)}
@@ -79,13 +85,16 @@ Scenarios ==
     \cup UNION {{s \in {[op |-> "Fork", h0 |-> h, k |-> k, kinds |-> ks] : h \in PreHeads, k \in ResetDepths, ks \in SeqsOver(ForkKinds, m)} :
                      DepthOk(s.h0, s.k)} : m \in ForkLens}
     \cup {[op |-> "Alt", h0 |-> h, k |-> 0, kinds |-> <<kd>>] : h \in PreHeads, kd \in Kinds}
+    \cup UNION {{[op |-> "FastSync", h0 |-> h, k |-> 0, kinds |-> ks] : h \in PreHeads, ks \in SeqsOver(FsKinds, m)} : m \in FsLens}
 
 (* ---------------------------------------------------------------------------------------------- *)
 (* pre-state: genesis, then the blocks a2..a(h0) inserted by the model itself without a crash      *)
 
 Genesis == LET g == [h |-> 1, id |-> "g1", root |-> "rg1", idr |-> "ig", par |-> "", kind |-> "plain", nidx |-> 0] IN
            [sv |-> Put(Empty, 1, g.root), iv |-> Put(Empty, 1, g.idr), hdr |-> {g}, head |-> g, canon |-> Put(Empty, 1, g.id),
-            diff |-> Empty, nidx |-> 0, up |-> TRUE, mhead |-> g, ms |-> g.root, mi |-> g.idr, ph |-> "idle", todo |-> <<>>, why |-> ""]
+            diff |-> Empty, nidx |-> 0, pv |-> Empty, pp |-> FALSE, xsv |-> Empty, phead |-> NoBlock,
+            up |-> TRUE, mhead |-> g, ms |-> g.root, mi |-> g.idr, mphead |-> NoBlock, mp |-> None,
+            ph |-> "idle", todo |-> <<>>, why |-> ""]
 
 RECURSIVE Grow(_, _, _)
 Grow(nd, s, h) == IF h > s.h0 THEN nd ELSE Grow(Run(Begin(nd, AddSteps(nd, ABlock(s, h))), <<>>, -1).n, s, h + 1)
@@ -100,6 +109,7 @@ AddMacros(s, from, to) == IF from > to THEN <<>> ELSE <<Macro("Add", Target(s, f
 OpMacros(s) == CASE s.op = "Add"   -> <<Macro("Add", ABlock(s, s.h0 + 1), 0)>>
                  [] s.op = "Alt"   -> <<Macro("Add", ABlock(s, s.h0 + 1), 0)>>
                  [] s.op = "Reset" -> <<Macro("ResetTo", NoBlock, s.h0 - s.k)>>
+                 [] s.op = "FastSync" -> <<Macro("FastSync", ABlock(s, SnapH(s)), SnapH(s))>>
                  [] s.op = "Fork"  -> <<Macro("ResetTo", NoBlock, ForkAt(s))>> \o AddMacros(s, ForkAt(s) + 1, ForkAt(s) + Len(s.kinds))
 
 (* what a syncing node does from its head to reach the tip of the target chain; afterwards the   *)
@@ -107,17 +117,22 @@ OpMacros(s) == CASE s.op = "Add"   -> <<Macro("Add", ABlock(s, s.h0 + 1), 0)>>
 (* same blocks (what a fork switch with that common ancestor does).                                *)
 Sync(nd, s) ==
     LET hh == nd.mhead.h IN
-    IF nd.mhead.id = Target(s, hh).id THEN AddMacros(s, hh + 1, End(s))
+    IF s.op = "FastSync" /\ nd.mhead.id = Target(s, hh).id /\ hh < SnapH(s)      \* fast sync not finished: resume it
+    THEN <<Macro("FastSync", ABlock(s, SnapH(s)), SnapH(s))>> \o AddMacros(s, SnapH(s) + 1, End(s))
+    ELSE IF nd.mhead.id = Target(s, hh).id THEN AddMacros(s, hh + 1, End(s))
     ELSE IF nd.mhead.id = ABlock(s, hh).id /\ ForkAt(s) > 0 /\ hh > ForkAt(s)
          THEN <<Macro("ResetTo", NoBlock, ForkAt(s))>> \o AddMacros(s, ForkAt(s) + 1, End(s))
          ELSE <<>>
 Probe(nd, s) ==
     LET hh == IF nd.mhead.id = Target(s, nd.mhead.h).id THEN nd.mhead.h ELSE ForkAt(s) IN
     IF hh < End(s) /\ hh >= 1 /\ End(s) - hh <= Retain - 1      \* only to a height whose tree versions are still retained
+       /\ ~(s.op = "FastSync" /\ hh < SnapH(s))                 \* (after a fast sync: not below the snapshot)
     THEN <<Macro("ResetTo", NoBlock, hh)>> \o AddMacros(s, hh + 1, End(s)) ELSE <<>>
 Continuation(nd, s, probe) == Sync(nd, s) \o (IF probe THEN Probe(nd, s) ELSE <<>>)
 
-Expand(nd, m) == IF m.what = "Add" THEN AddSteps(nd, m.b) ELSE ResetSteps(nd, m.to)
+Expand(nd, m) == CASE m.what = "Add" -> AddSteps(nd, m.b)
+                   [] m.what = "ResetTo" -> ResetSteps(nd, m.to)
+                   [] m.what = "FastSync" -> FastSyncSteps(nd, [h \in 1..End(sc) |-> ABlock(sc, h)], m.to)
 
 LowestRetained(nd) == IF (DOMAIN nd.sv) \cap (DOMAIN nd.iv) = {} THEN 1 ELSE MinOf((DOMAIN nd.sv) \cap (DOMAIN nd.iv))
 
@@ -131,7 +146,7 @@ MInit == /\ sc \in Scenarios
 (* start the next macro step (AddBlock / ResetTo call) *)
 BeginMacro == /\ stage \in {"op", "cont"} /\ phase # "rec" /\ n.ph = "idle" /\ n.todo = <<>> /\ opq # <<>>
               /\ n' = Begin(n, Expand(n, Head(opq))) /\ opq' = Tail(opq)
-              /\ win' = [lo |-> win.lo, hi |-> IF Head(opq).what = "Add" /\ Head(opq).b.h > win.hi THEN Head(opq).b.h ELSE win.hi]
+              /\ win' = [lo |-> win.lo, hi |-> IF Head(opq).what \in {"Add", "FastSync"} /\ Head(opq).b.h > win.hi THEN Head(opq).b.h ELSE win.hi]
               /\ UNCHANGED <<sc, stage, phase, wl, crashes, rheads, verdict>>
 
 (* one action per kind of step *)
@@ -155,6 +170,14 @@ RollbackState       == StepKind({"SRollback", "SRollbackNoop"})
 RollbackIdentity    == StepKind({"IRollback", "IRollbackNoop"})
 RemoveHeader        == StepKind({"DelHeader"})
 RemoveCanonical     == StepKind({"DelCanon"})
+PreliminaryCopy     == StepKind({"InitPrelim", "LoadPrelim", "PCopy"})
+RegisterPreliminary == StepKind({"PfxP"})
+CommitPreliminary   == StepKind({"PCommit", "PCommitNoop", "PCommitLost", "PPrune"})
+WritePreliminaryHead == StepKind({"PHead"})
+ImportSnapshot      == StepKind({"SnapImport"})
+AtomicSwitch        == StepKind({"Switch"})
+DropReplaced        == StepKind({"DropOld", "Settled"})
+RemovePreliminaryHead == StepKind({"DelPHead"})
 InitChain           == StepKind({"InitChain"})
 InitState           == StepKind({"InitState"})
 EnsureIntegrityStep == StepKind({"Integrity", "Fail"})
@@ -212,6 +235,8 @@ MNext == \/ BeginMacro
          \/ ValidateBlock \/ CommitStateTree \/ PruneState \/ CommitIdentityTree \/ PruneIdentity
          \/ WriteHeader \/ WriteHead \/ WriteCanonical \/ WriteDiff \/ WriteIndexes \/ SetCurrentHead
          \/ RollbackState \/ RollbackIdentity \/ RemoveHeader \/ RemoveCanonical
+         \/ PreliminaryCopy \/ RegisterPreliminary \/ CommitPreliminary \/ WritePreliminaryHead \/ ImportSnapshot
+         \/ AtomicSwitch \/ DropReplaced \/ RemovePreliminaryHead
          \/ InitChain \/ InitState \/ EnsureIntegrityStep
          \/ Crash \/ CleanStop \/ Restart \/ BootDone \/ OpDone \/ Finish \/ Stuck \/ Done
 
